@@ -1,6 +1,7 @@
 package cose
 
 import (
+	"bytes"
 	"errors"
 	"fmt"
 	"math/big"
@@ -787,5 +788,35 @@ func (discardedCBORMessage) UnmarshalCBOR(data []byte) error {
 // Reference: https://datatracker.ietf.org/doc/html/rfc8152#section-1.4
 func validateHeaderLabelCBOR(data []byte) error {
 	var header map[headerLabelValidator]discardedCBORMessage
-	return decMode.Unmarshal(data, &header)
+	if err := decMode.Unmarshal(data, &header); err != nil {
+		return err
+	}
+	return ensureUntaggedHeaderLabels(data)
+}
+
+// ensureUntaggedHeaderLabels refuses a header map with a label wrapped in the
+// self-described CBOR tag (55799). The CBOR decoder strips that tag before it
+// hands a map key to headerLabelValidator, so such a label would otherwise be
+// taken for the int / tstr it encloses. data must be a well-formed header map.
+func ensureUntaggedHeaderLabels(data []byte) error {
+	if len(data) == 0 || data[0]>>5 != 5 { // major type 5: map
+		return nil
+	}
+	head := 1
+	if ai := data[0] & 0x1f; ai >= 24 {
+		head += 1 << (ai - 24)
+	}
+	dec := decMode.NewDecoder(bytes.NewReader(data[head:]))
+	for off := head; off < len(data); off = head + dec.NumBytesRead() {
+		if data[off]>>5 == 6 { // major type 6: tag
+			return errors.New("cbor: header label: require int / tstr type")
+		}
+		if err := dec.Skip(); err != nil { // label
+			return err
+		}
+		if err := dec.Skip(); err != nil { // value
+			return err
+		}
+	}
+	return nil
 }
